@@ -343,8 +343,8 @@ for ch in ("A",):
     ob(id="ParseIPv6address2.groups.K17.%s.H" % ch, props=["C01", "C02", "C03", "C19"], route="H", harness="c02_ip6.c", char=ch,
        group="uriParseIPv6address2 == RFC 3986 IPv6address recogniser on the slice of long literals over the six symbols 1 2 a F : ] (group placement around '::', eight-group form) - bounded stand-in",
        defines={"V_K": 17, "SPEC_IP6_MAX": 17, "V_IP6_MODE": 2},
-       # loop .1 is the embedded-IPv4 loop: never entered on this slice (no '.'), which the unwinding assertion confirms
-       unwindset={"uriParseIPv6address2%s.0" % ch: 18, "uriParseIPv6address2%s.1" % ch: 2, "uriParseIPv6address2%s.2" % ch: 3,
+       # loop .0 is the embedded-IPv4 loop: never entered on this slice (no '.'), which the unwinding assertion confirms
+       unwindset={"uriParseIPv6address2%s.0" % ch: 2, "uriParseIPv6address2%s.1" % ch: 18, "uriParseIPv6address2%s.2" % ch: 3,
                   "uriFreeUriMembersMm%s.*" % ch: 2},
        level="B", bounds="literals of at most 17 characters (including the closing bracket) over the symbols 1 2 a F : ]",
        functions=["uriParseIPv6address2" + ch], inlined=["uriStopSyntax" + ch, "uriFreeUriMembersMm" + ch, "uriWriteQuadToDoubleByte", "uriGetOctetValue"],
